@@ -2,6 +2,7 @@
 from engine import guards as G
 from engine import mir
 from . import common as K
+from . import detectors as D
 from .common import POOL, fshort
 
 EXPLANATION = (
@@ -77,52 +78,10 @@ def ob_no_downgrade(run, oid):
     run.notes.append("decided statuses (read from FinalityTracker::prune): %s ; undecided: %s" % (sorted(decided), sorted(undecided)))
     n = 0
     for b in K.bodies_in(prog, POOL + "finality_tracker::"):
-        ins = status_inserts(prog, b)
-        for (c, var, vterm), key in K.ordinal_keys(ins, lambda x: "%s|status.insert(%s)" % (fshort(x[0].body.defpath), x[1] or "value")):
-            if var is None:
-                # re-insertion of a saved status value: fine when it is the old value of another insert
-                pv = b.provenance(vterm)
-                ok = any(x.endswith("BTreeMap::insert") for x in pv["calls"])
-                o.check(ok, key + "|restores-old", "inserted value is a previously displaced status (restore)", c.span, {"value": mir.show(vterm)})
-                continue
-            if var in decided:
-                o.ok(key, "inserts decided status %s" % var, c.span)
-                continue
-            n += 1
-            # idiom (b): pre-insert guard on the current status excludes decided variants
-            pre = [a for a in G.guard_atoms(b, c.bb, prog) if a[0] == "variant" and not (a[1][1] & decided)
-                   and any(x[1].endswith("BTreeMap::get") for x in mir.calls_in(a[1][0]))]
-            if pre:
-                o.ok(key + "|pre-guarded", "insert of undecided %s happens only when the current status is undecided/absent" % var, c.span)
-                continue
-            # idiom (a): the displaced value is matched and decided arms restore
-            sw = None
-            for (s, dterm, dty) in b.switches():
-                if isinstance(dterm, tuple) and dterm[0] == "discr":
-                    x = dterm[1]
-                    saw_some = False
-                    while isinstance(x, tuple) and x[0] in ("variant", "field"):
-                        if x[0] == "variant" and x[2] == "Some":
-                            saw_some = True
-                        x = x[1]
-                    if saw_some and isinstance(x, tuple) and x[0] == "call" and x[3] == c.bb:
-                        sw = s
-            if sw is None:
-                o.fail(key + "|old-ignored", "undecided status %s is inserted and the displaced status is never examined" % var, c.span)
-                continue
-            sa = G.switch_atoms(b, sw, prog)
-            es = b.edges()
-            others = [x[0].bb for x in ins if x[0].bb != c.bb]
-            for v, atoms in sa.items():
-                for a in atoms:
-                    if a[0] != "variant":
-                        continue
-                    for name in sorted(a[1][1] & decided):
-                        tgt = [e[1] for e in es if e[0] == sw and e[2] == ("sw", v)][0]
-                        ok = b.always_followed_by(tgt, others)
-                        wit = None if ok else b.path_avoiding(tgt, others)
-                        o.check(ok, key + "|over-%s" % name, "when %s displaces decided %s the decided status is restored before returning" % (var, name), c.span,
-                                {"arm_block": tgt, "path_to_return_without_restore": wit})
+        for (key, ok, what, sp, det) in D.no_downgrade(prog, b, "status", "FinalityTracker", FS, decided):
+            if "|over-" in key or "|old-ignored" in key or "|pre-guarded" in key:
+                n += 1
+            o.check(ok, "%s|%s" % (fshort(b.defpath), key), what, sp, det)
     if n == 0:
         o.missing("insert of an undecided FinalizationStatus into FinalityTracker::status")
 
